@@ -443,25 +443,39 @@ impl<T: Qcow2IoOps> Qcow2Dev<T> {
 
         log::debug!("flush_meta: entry");
         loop {
-            // refcount is usually small size & continuous, so simply
-            // flush all
-            self.flush_refcount().await?;
+            // Clear the flag before looking for dirty meta: whoever makes meta
+            // dirty from now on sets it again, so that isn't lost even if this
+            // pass has walked past that meta already.
+            self.mark_need_flush(false);
 
-            // read lock prevents update on l1 table, meantime
-            // normal read and cache-hit write can go without any
-            // problem
-            let l1 = &*self.l1table.read().await;
-
-            let done = self
-                .flush_meta_generic(l1, &self.l2cache, |off| self.l2_slice_key_of_l1_off(off))
-                .await?;
+            let done = match self.flush_meta_one_pass().await {
+                Ok(done) => done,
+                Err(e) => {
+                    // something may be left dirty
+                    self.mark_need_flush(true);
+                    return Err(e);
+                }
+            };
             if done {
-                self.mark_need_flush(false);
                 break;
             }
         }
         log::debug!("flush_meta: exit");
         Ok(())
+    }
+
+    async fn flush_meta_one_pass(&self) -> Qcow2Result<bool> {
+        // refcount is usually small size & continuous, so simply
+        // flush all
+        self.flush_refcount().await?;
+
+        // read lock prevents update on l1 table, meantime
+        // normal read and cache-hit write can go without any
+        // problem
+        let l1 = &*self.l1table.read().await;
+
+        self.flush_meta_generic(l1, &self.l2cache, |off| self.l2_slice_key_of_l1_off(off))
+            .await
     }
 }
 
